@@ -84,6 +84,115 @@ func runC07(c *an.Ctx) {
 			}
 		}
 	}
+	keySaverStructure(c, saver)
+	// call sites of the saver
+	sites := p.CallSites(saver)
+	c.Count("AUTH", len(sites))
+	c.Floor("AUTH", 1)
+	for _, s := range sites {
+		call, ok := s.(*ssa.Call)
+		if !ok {
+			continue
+		}
+		fn := call.Parent()
+		fi := p.Info(fn)
+		lf := p.LockFlowOf(fn)
+		key := func(x string) string { return an.KeyOf(fn, "register:"+x) }
+		st := lf.StateAt(call, "GCAServer.mu")
+		c.Check(st == an.LsDeferred || an.Held(st), "AUTH", fn, call.Pos(), key("lock"), "the key saver is called with GCAServer.mu held", "lock state at the call")
+		X := fi.Term(call.Call.Args[len(call.Call.Args)-1])
+		facts := fi.FactsAt(call)
+		okFlag := false
+		for _, f := range facts {
+			if !f.Neg {
+				continue
+			}
+			if fld, ver, ok := mapFieldOfTerm(f.T); ok && fld == "gcaPubkeyAvailable" {
+				if ver == fi.VersionAt(call, an.Class{Root: "T:GCAServer", Path: []string{"gcaPubkeyAvailable"}}) {
+					okFlag = true
+				}
+			}
+		}
+		c.Check(okFlag, "AUTH", fn, call.Pos(), key("not-registered"), "the availability flag is known to be false in the same critical section as the store (atomic check-and-set: one winner, never replaced)", "facts "+factList(facts))
+		okV := false
+		for _, va := range verifyFacts(facts) {
+			if f, _, ok := mapFieldOfTerm(va[0]); ok && f == "gcaTempKey" {
+				if isSigningBytesOf(va[1], X) && va[2].Key() == fi.FieldOfTerm(X, "Signature").Key() {
+					okV = true
+				}
+			}
+		}
+		c.Check(okV, "AUTH", fn, call.Pos(), key("temp-key"), "glow.Verify(gcaTempKey, gr.SigningBytes(), gr.Signature) for the registration that is saved dominates the call", "facts "+factList(facts))
+	}
+	// loader: flag set only for a 32-byte file
+	for fn := range construction {
+		fi := p.Info(fn)
+		for _, b := range fn.Blocks {
+			for _, in := range b.Instrs {
+				st, ok := in.(*ssa.Store)
+				if !ok {
+					continue
+				}
+				cls := fi.RefClass(st.Addr)
+				if f, ok := cls.FieldOf("GCAServer"); !ok || f != "gcaPubkeyAvailable" {
+					continue
+				}
+				// find the copy into gcaPubkey in the same function and its source
+				okLen := false
+				var desc string
+				for _, b2 := range fn.Blocks {
+					for _, in2 := range b2.Instrs {
+						if call, ok := in2.(*ssa.Call); ok {
+							if bi, ok := call.Call.Value.(*ssa.Builtin); ok && bi.Name() == "copy" {
+								src := fi.Term(call.Call.Args[1])
+								s := fi.SysFor(st)
+								lt := an.LenTerm(src)
+								if s.ProveGE(lt, 32) && s.ProveLE(lt, 32) {
+									okLen = true
+								}
+								desc = "len(file) " + s.Describe(lt)
+							}
+						}
+					}
+				}
+				c.Check(okLen, "PERSIST", fn, st.Pos(), an.KeyOf(fn, "loader-flag"), "the loader marks the server as registered only if gcaPubKey.dat holds exactly 32 bytes (an empty file left by a crash is 'not registered')", desc)
+			}
+		}
+	}
+	verifySites(c)
+	// HONOURED: the three kinds of GCA-signed orders change state only under a
+	// signature of the registered key (rules owned by C06 and C17, re-run here
+	// because this property states them too)
+	if saver := findAuthSaver(p); saver != nil {
+		equipmentAuthSites(c, saver)
+	} else {
+		c.Undecided("ANCHOR", nil, 0, "auth-saver", "authorization saver not found", "anchor missing")
+	}
+	serverListAuth(c)
+	migrationStore(c)
+}
+
+// findKeySaver: the non-construction function that stores the GCA key.
+func findKeySaver(p *an.Program) *ssa.Function {
+	ctor := p.Constructor("server", "GCAServer")
+	construction := p.ConstructionPhase("server", ctor)
+	for _, fn := range p.FuncsIn("server") {
+		if construction[fn] {
+			continue
+		}
+		for _, a := range p.AccessesOf(fn) {
+			if f, ok := a.Cls.FieldOf("GCAServer"); ok && a.Write && (f == "gcaPubkey" || f == "gcaPubkeyAvailable") {
+				return fn
+			}
+		}
+	}
+	return nil
+}
+
+// keySaverStructure: the key saver writes the file with exactly the registered key before it sets the key and the
+// flag, and every successful return has set both.
+func keySaverStructure(c *an.Ctx, saver *ssa.Function) {
+	p := c.P
 	// saver structure
 	sfi := p.Info(saver)
 	var write *ssa.Call
@@ -173,91 +282,6 @@ func runC07(c *an.Ctx) {
 		}
 		c.Check(okSet && nRet > 0, "PERSIST", saver, saver.Pos(), an.KeyOf(saver, "success-sets:"+f), "every successful return of the key saver has stored "+f+" (after a successful registration the server is registered: a second registration is refused and the key is in force)", fmt.Sprintf("%d stores, %d nil-error returns", len(stores), nRet))
 	}
-	// call sites of the saver
-	sites := p.CallSites(saver)
-	c.Count("AUTH", len(sites))
-	c.Floor("AUTH", 1)
-	for _, s := range sites {
-		call, ok := s.(*ssa.Call)
-		if !ok {
-			continue
-		}
-		fn := call.Parent()
-		fi := p.Info(fn)
-		lf := p.LockFlowOf(fn)
-		key := func(x string) string { return an.KeyOf(fn, "register:"+x) }
-		st := lf.StateAt(call, "GCAServer.mu")
-		c.Check(st == an.LsDeferred || an.Held(st), "AUTH", fn, call.Pos(), key("lock"), "the key saver is called with GCAServer.mu held", "lock state at the call")
-		X := fi.Term(call.Call.Args[len(call.Call.Args)-1])
-		facts := fi.FactsAt(call)
-		okFlag := false
-		for _, f := range facts {
-			if !f.Neg {
-				continue
-			}
-			if fld, ver, ok := mapFieldOfTerm(f.T); ok && fld == "gcaPubkeyAvailable" {
-				if ver == fi.VersionAt(call, an.Class{Root: "T:GCAServer", Path: []string{"gcaPubkeyAvailable"}}) {
-					okFlag = true
-				}
-			}
-		}
-		c.Check(okFlag, "AUTH", fn, call.Pos(), key("not-registered"), "the availability flag is known to be false in the same critical section as the store (atomic check-and-set: one winner, never replaced)", "facts "+factList(facts))
-		okV := false
-		for _, va := range verifyFacts(facts) {
-			if f, _, ok := mapFieldOfTerm(va[0]); ok && f == "gcaTempKey" {
-				if isSigningBytesOf(va[1], X) && va[2].Key() == fi.FieldOfTerm(X, "Signature").Key() {
-					okV = true
-				}
-			}
-		}
-		c.Check(okV, "AUTH", fn, call.Pos(), key("temp-key"), "glow.Verify(gcaTempKey, gr.SigningBytes(), gr.Signature) for the registration that is saved dominates the call", "facts "+factList(facts))
-	}
-	// loader: flag set only for a 32-byte file
-	for fn := range construction {
-		fi := p.Info(fn)
-		for _, b := range fn.Blocks {
-			for _, in := range b.Instrs {
-				st, ok := in.(*ssa.Store)
-				if !ok {
-					continue
-				}
-				cls := fi.RefClass(st.Addr)
-				if f, ok := cls.FieldOf("GCAServer"); !ok || f != "gcaPubkeyAvailable" {
-					continue
-				}
-				// find the copy into gcaPubkey in the same function and its source
-				okLen := false
-				var desc string
-				for _, b2 := range fn.Blocks {
-					for _, in2 := range b2.Instrs {
-						if call, ok := in2.(*ssa.Call); ok {
-							if bi, ok := call.Call.Value.(*ssa.Builtin); ok && bi.Name() == "copy" {
-								src := fi.Term(call.Call.Args[1])
-								s := fi.SysFor(st)
-								lt := an.LenTerm(src)
-								if s.ProveGE(lt, 32) && s.ProveLE(lt, 32) {
-									okLen = true
-								}
-								desc = "len(file) " + s.Describe(lt)
-							}
-						}
-					}
-				}
-				c.Check(okLen, "PERSIST", fn, st.Pos(), an.KeyOf(fn, "loader-flag"), "the loader marks the server as registered only if gcaPubKey.dat holds exactly 32 bytes (an empty file left by a crash is 'not registered')", desc)
-			}
-		}
-	}
-	verifySites(c)
-	// HONOURED: the three kinds of GCA-signed orders change state only under a
-	// signature of the registered key (rules owned by C06 and C17, re-run here
-	// because this property states them too)
-	if saver := findAuthSaver(p); saver != nil {
-		equipmentAuthSites(c, saver)
-	} else {
-		c.Undecided("ANCHOR", nil, 0, "auth-saver", "authorization saver not found", "anchor missing")
-	}
-	serverListAuth(c)
-	migrationStore(c)
 }
 
 // verifySites classifies every glow.Verify call of the server by its key.
